@@ -147,12 +147,14 @@ def mutants(njobs, only=None, all_props=False):
         import fnmatch
         ms = [m for m in ms if m['name'] == only or m['name'].startswith(only) or fnmatch.fnmatch(m['name'], only)]
     bad = 0
+    results = {}
     for m in ms:
         props = sorted(PROPS) if all_props else (m['props'] or sorted(PROPS))
         res = run_mutant(m, props, njobs, extra_args=(['--scale', os.environ['VERIF_SCALE']] if os.environ.get('VERIF_SCALE') else ()))
         caught = [p for p, r in res.items() if r['rc'] == 1]
         harness = [p for p, r in res.items() if r['rc'] not in (0, 1)]
         status = 'CAUGHT' if any(p in caught for p in (m['props'] or props)) else 'MISSED'
+        results[m['name']] = {'target': m['props'], 'caught_by': caught, 'harness_error': harness, 'checked': sorted(res)}
         if status == 'MISSED' or harness:
             bad += 1
         print('%-28s %s  caught by %s%s%s' % (m['name'], status, caught or '-', '  HARNESS-ERROR in %s' % harness if harness else '',
@@ -162,6 +164,8 @@ def mutants(njobs, only=None, all_props=False):
                 print('    %s rc=%s %s' % (p, r['rc'], r['lines'][:3]))
         sys.stdout.flush()
     print('MUTANTS: %d of %d not caught / erroneous' % (bad, len(ms)))
+    if os.environ.get('VERIF_RESULTS'):
+        json.dump(results, open(os.environ['VERIF_RESULTS'], 'w'), indent=1)
     return 0 if bad == 0 else 1
 
 
